@@ -277,6 +277,10 @@ class BaseLoadedMessage(LoadedMessageInterface):
                 subtype, params, disposition, language, location,
                 content_id, content_desc, content_encoding, None, size, lines)
         size = len(msg)
+        if maintype == 'message' and subtype == 'rfc822':
+            # not followed into (nested too deep): a message/rfc822 body is
+            # written with an envelope and a body, this one is opaque data
+            maintype, subtype = 'application', 'octet-stream'
         return ContentBodyStructure(
             maintype, subtype, params, disposition, language, location,
             content_id, content_desc, content_encoding, None, size)
